@@ -781,7 +781,7 @@ func init() {
 		Level:       "other",
 		Explanation: "Structural necessary conditions of 'retransmitted requests execute once and get the same reply', on all paths: every successful start of an owner transaction is completed exactly once and its failure edge is side-effect free; startTransaction returns the stored reply for an equal sequence number and rejects before touching state; sequence number and cached reply are always recorded together (4.0 owners, CREATE_SESSION, SEQUENCE slots); the SEQUENCE state machine executes only in the next-sequence arm, replays only after the false-retry shape tests, and in-flight duplicates register their channel before blocking and are broadcast the result. Byte equality of replies over all duplication histories is not decided.",
 		Assumptions: []string{"the XDR layer delivers what the program returns"},
-		Rules:       []RuleFunc{c19TxLinear, c19StartShape, c19Together, c19Sequence, c19WakeAll, c19ReplayStateID, c19ClosedStateRetained, c19InitialFlag, c19BadSeqidNotCached, c19PolicyRules},
+		Rules:       []RuleFunc{c19TxLinear, c19StartShape, c19Together, c19Sequence, c19WakeAll, c19ReplayStateID, c19ClosedStateRetained, c19InitialFlag, c19BadSeqidNotCached, c19PolicyRules, c19DowngradeBumps},
 	})
 }
 
